@@ -947,8 +947,8 @@ Lemma delay_cycles : forall cs s m e k,
                 (forall pl, m_rx m' <> Rq pl) /\ m_sp m' = Some 1.
 Proof.
   induction cs as [|i cs IH]; intros s m e k R Hw Hrx Hsp Hall Hnd Hk.
-  - cbn [length] in Hk. split; [constructor|]. exists m, e. cbn [run_state]. repeat split; auto.
-    rewrite Hw. f_equal. lia.
+  - cbn [length] in Hk. split; [constructor|]. exists m, e. cbn [run_state].
+    split; [exact R|]. split; [rewrite Hw; f_equal; lia|]. split; assumption.
   - inversion Hall as [|? ? Hi Hcs]; subst. destruct Hnd as [Hd Hnd]. cbn [length] in Hk.
     destruct (delay_step s m e k i R Hw Hrx Hsp Hi (fun _ => Hd)) as (m1 & ok & Em & Hack & W & X & P & T).
     replace (k =? 10) with false in * by lia.
@@ -1007,7 +1007,7 @@ Proof.
   change (1 =? 0) with false in *.
   set (s1 := fst (c6_step true true s' y1)) in *. set (s2 := fst (c6_step true true s1 y2)) in *.
   assert (Hp2 : fst (m_tsp m2) = None).
-  { rewrite (joint_tsp _ _ _ _ _ J2), tsp_fst_fold, Hp'. cbn [fold_left pk_next]. rewrite Hy1, Hy2. reflexivity. }
+  { rewrite (joint_tsp _ _ _ _ _ J2), tsp_fst_fold, Hp'. cbn [fold_left]. unfold pk_next. rewrite Hy1, Hy2. reflexivity. }
   assert (Hnd2 : no_done (fst (m_tsp m2)) zs) by (rewrite Hp2; rewrite <- (app_nil_r zs); apply no_done_gap_run; auto).
   destruct (delay_cycles zs s2 m2 e2 0 R2 W2 ltac:(intros q; rewrite X2; discriminate) P2 Hsp_zs Hnd2 ltac:(rewrite Hlen; reflexivity))
     as (F & m3 & e3 & R3 & W3 & X3 & P3).
@@ -1035,4 +1035,12 @@ Proof.
     rewrite Forall_forall in F. apply F. apply nth_In. rewrite run_length. lia.
   - rewrite app_nth2_plus. change 12%nat with (S (S 10)). cbn [app nth].
     rewrite app_nth2; rewrite run_length, Hlen; [|lia]. rewrite Nat.sub_diag. exact Az.
+Qed.
+
+(* exhaustive single-transaction sweeps of a netlist from reset *)
+Theorem c6_sweep_sound : forall gstep ginit w mk, c6_sweep_eq gstep ginit w mk = true ->
+  forall x, x < 2 ^ N.of_nat w -> run gstep ginit (mk x) = run (c6_step true true) c6_init (mk x).
+Proof.
+  intros gstep ginit w mk H x Hx. unfold c6_sweep_eq in H.
+  pose proof (forall_bits_sound w _ H x Hx) as E. cbv beta in E. apply list_eqb_eq in E. exact E.
 Qed.
